@@ -10,6 +10,7 @@ _linters = {}
 
 WS_CHOICES = [" ", "\n", "\t", "  \n  ", "\n\n", " \t "]
 COMMENTS = [" /* c; x */ ", " -- c ; select\n", "/**/", " /* from zz join yy */ ", "\n-- insert into qq\n", " /* ' \" ` */ "]
+GLUE = ["/**/", "/*;*/", "/* c */"]  # a block comment as the only separator between two words
 TRAILERS = [";", ";;", ";\n;", " ;\n", "\n;\n-- tail\n", ""]
 BACKTICK = {"mysql", "mariadb", "hive", "sparksql", "databricks", "bigquery", "clickhouse", "starrocks", "doris", "impala", "athena"}
 PLAIN_LOWER = re.compile(r"^[a-z_][a-z0-9_]*$")
@@ -112,6 +113,7 @@ class Sites:
         self.ws = []
         self.words = []
         self.idents = []
+        self.glue = []
         self.nquoted = None
         if not self.ok:
             return
@@ -135,6 +137,10 @@ class Sites:
                     self.idents.append(i)
             if self.idents:
                 self.nquoted = count_quoted_identifiers(sql, dialect)
+        # whitespace directly in front of an identifier and behind a word: a bare comment can stand there as the ONLY separator ("from/**/t2")
+        ids = set(self.idents)
+        self.glue = [i for i in self.ws if i + 1 in ids and i > 0 and self.toks[i - 1][0] == "word" and i - 1 not in ids
+                     and not (self.toks[i - 1][0] == "comment")]
 
     def quote_sites_applied(self, edits):
         return len({site % len(self.idents) for kind, site, _ in edits if kind == "quote"}) if self.idents else 0
@@ -167,6 +173,9 @@ class Sites:
                 c = COMMENTS[choice % len(COMMENTS)]
                 # sqlfluff's parser needs whitespace between a comment and a following keyword
                 toks[i] = toks[i] + c + ("" if c[-1:].isspace() else " ")
+            elif kind == "glue" and self.glue:
+                i = self.glue[site % len(self.glue)]
+                toks[i] = GLUE[choice % len(GLUE)]
             elif kind == "case" and self.words:
                 i = self.words[site % len(self.words)]
                 w = self.toks[i][1]
@@ -190,3 +199,5 @@ class Sites:
             yield ("case", s, 2 if w.swapcase() != w else 0)
         for s in range(len(self.idents)):
             yield ("quote", s, 0)
+        for s in range(len(self.glue)):
+            yield ("glue", s, s % len(GLUE))
